@@ -47,6 +47,8 @@ class LearnableThermometerThresholding(nn.Module):
             diffs = torch.diff(thresholds, prepend=first.new_zeros(1))
             self.raw_diffs.copy_(diffs)
         self.raw_diffs.requires_grad = False
+        # an optimizer built earlier skips a parameter only when its grad is None (momentum / weight decay would move it)
+        self.raw_diffs.grad = None
         self._frozen = True
 
     def forward(self, x):
